@@ -360,6 +360,58 @@ func init() {
 				}
 			}
 		}
+		// long component lists, around the boundaries of the CBOR array head (23 | 24, 255 | 256)
+		lens := []int{5, 23, 24, 25, 256}
+		if a.Tier == "thorough" {
+			lens = []int{5, 22, 23, 24, 25, 26, 100, 255, 256, 257, 1000}
+		}
+		for _, p := range []string{"P1", "P2"} {
+			var base *CSpec
+			for _, m := range doc[p] {
+				if s := specFromObj(m); len(s.Sw) >= 2 {
+					base = &s
+					break
+				}
+			}
+			if base == nil {
+				continue
+			}
+			for k, n := range lens {
+				s := base.clone()
+				s.Sw = nil
+				for i := 0; i < n; i++ {
+					s.Sw = append(s.Sw, base.Sw[i%len(base.Sw)])
+				}
+				var c psatoken.IClaims
+				var err error
+				how := []string{"setters", "lit", "cbor", "json"}[k%4]
+				switch how {
+				case "setters":
+					var ok bool
+					if c, ok = cc.BuildSetters(s, func() psatoken.IClaims { x, _ := psatoken.NewClaims(canonOf[p]); return x }); !ok {
+						how, c = "lit", cc.BuildLit(s)
+					}
+				case "lit":
+					c = cc.BuildLit(s)
+				case "cbor":
+					c, err = cc.BuildCBOR(s)
+				case "json":
+					c, err = cc.BuildJSON(s)
+				}
+				if err != nil {
+					fatal("building a valid set with %d components failed (%s): %v", n, how, err)
+				}
+				if doCBOR {
+					t.Emit(observeEncodeCBOR(b, "manycomps:"+p, how, c), true, true)
+					b++
+				}
+				if doJSON {
+					t.Emit(observeEncodeJSON(b, "manycomps:"+p, how, c, reg), true, true)
+					b++
+				}
+				bysrc[p+":manycomps"]++
+			}
+		}
 		t.Close(map[string]any{"by_source": bysrc})
 	}
 }
